@@ -28,6 +28,7 @@ pub const VICTIMS: &[&str] = &[
     "fn v() { case s { \"p\" <> r -> r [x] as l -> l } }",
     "fn v() { todo as \"x\" panic <<1, 2>> }",
     "pub fn v(a: Int) -> Int { let assert Ok(x): Result(Int, Nil) = f(a) x }",
+    "fn v() { g(a, with: b) }",
 ];
 
 /// Definitions placed directly after the victim (their first token is what recovery meets).
@@ -342,7 +343,7 @@ impl Property for C03 {
         "C03"
     }
     fn rule(&self) -> String {
-        "cases: (a) EXHAUSTIVE single edits: 16 victim templates (one per recovery-loop site: block, let, use, case subjects/clauses, alternatives+guard, constructor/tuple/list patterns, call args, tuple/list, lambda, operators/postfix, variants+fields, generic/type args, nested blocks, string-prefix/as patterns, todo/panic/bit array, let assert) x every body-token position x every non-opening token class (keywords, identifiers, literals, operators, closers, separators, lexer-error characters) x {insert, replace, delete} x 8 different following definitions; (b) all PAIRS of such edits on a rotating subset (thorough: all templates); (c) proptest-generated files of 2-6 grammar-generated definitions with <=3 edits on a random victim. `{`/`}` are never inserted, deleted or replaced, so the body's braces stay balanced; the damaged body is re-lexed to confirm the intended token sequence. Oracle: untouched definitions are recognised with identical kind/text/position outside the victim's span, no top-level node straddles the span, every syntax error lies inside it. Non-trivial = damaged file has >=1 syntax error and the victim is not the last definition; distinct by hash of the damaged file.".into()
+        "cases: (a) EXHAUSTIVE single edits and deletions of every run of 2-3 adjacent tokens: 17 victim templates (one per recovery-loop site: block, let, use, case subjects/clauses, alternatives+guard, constructor/tuple/list patterns, call args, tuple/list, lambda, operators/postfix, variants+fields, generic/type args, nested blocks, string-prefix/as patterns, todo/panic/bit array, let assert) x every body-token position x every non-opening token class (keywords, identifiers, literals, operators, closers, separators, lexer-error characters) x {insert, replace, delete} x 8 different following definitions; (b) all PAIRS of such edits on a rotating subset (thorough: all templates); (c) proptest-generated files of 2-6 grammar-generated definitions with <=3 edits on a random victim. `{`/`}` are never inserted, deleted or replaced, so the body's braces stay balanced; the damaged body is re-lexed to confirm the intended token sequence. Oracle: untouched definitions are recognised with identical kind/text/position outside the victim's span, no top-level node straddles the span, every syntax error lies inside it. Non-trivial = damaged file has >=1 syntax error and the victim is not the last definition; distinct by hash of the damaged file.".into()
     }
     fn assumptions(&self) -> Vec<String> {
         vec![
@@ -406,6 +407,39 @@ impl Property for C03 {
             }
         }
         ctx.space("single edits: templates x followers x positions x classes x ops", k);
+        // (a2) every run of 2 and 3 adjacent body tokens deleted (an argument and its closing
+        // parenthesis, an operator and its operand, ...)
+        let mut ka = 0u64;
+        for (vi, v) in VICTIMS.iter().enumerate() {
+            let nbody = body_tokens(&lex(v)).map(|b| b.len()).unwrap_or(0);
+            for (fi, f) in FOLLOWERS.iter().enumerate() {
+                let defs: Vec<String> = vec![BEFORE[0].to_string(), BEFORE[1].to_string(), v.to_string(), f.to_string(), TAIL.trim().to_string()];
+                for run in 2..=3usize {
+                    for pos in 0..nbody.saturating_sub(run - 1) {
+                        ka += 1;
+                        if !ctx.mine(ka) {
+                            continue;
+                        }
+                        let edits: Vec<Edit> = (0..run).map(|i| Edit::Delete(pos + i)).collect();
+                        match check_case(ctx, &defs, 2, &edits, "\n\n") {
+                            Ok(nt) => {
+                                if nt {
+                                    local.insert(hash_str(&format!("{}/{}/del{}@{}", vi, fi, run, pos)));
+                                }
+                                ctx.class("adjacent tokens deleted");
+                            }
+                            Err(f) => {
+                                ctx.fail(f);
+                                if ctx.stopped() {
+                                    return;
+                                }
+                            }
+                        }
+                    }
+                }
+            }
+        }
+        ctx.space("runs of 2-3 adjacent body tokens deleted: templates x followers x positions", ka);
         // (b) pairs on a subset of templates
         let mut k2 = 0u64;
         let templates: Vec<usize> = if ctx.tier == Tier::Thorough { (0..VICTIMS.len()).collect() } else { vec![(ctx.seed % 16) as usize, ((ctx.seed / 16 + 3) % 16) as usize] };
